@@ -24,7 +24,7 @@ def _api():
     return ints, objs, DiameterAnswer, ResultCodeAVP
 
 
-SHAPES = ("plain", "ebit", "mixed")
+SHAPES = ("plain", "ebit", "mixed", "decoy-before", "decoy-after")
 
 
 def _answer(api, w, shape):
@@ -34,6 +34,20 @@ def _answer(api, w, shape):
     rc = ResultCodeAVP(bytes(w))
     if shape == "plain":
         return DiameterAnswer(command_code=272, application_id=4, avps=[rc])
+    if shape.startswith("decoy"):
+        # another vendor's AVP that uses code 268 in its own code space (V flag, Vendor-ID) and a grouped Experimental-Result
+        # next to the Result-Code: neither of them is the Result-Code
+        from bromelia.base import DiameterAVP
+        from bromelia.avps import ExperimentalResultAVP, ExperimentalResultCodeAVP, VendorIdAVP
+        other = (2001 if int.from_bytes(bytes(w), "big") // 1000 != 2 else 5012).to_bytes(4, "big")
+        decoy = DiameterAVP(code=268, vendor_id=10415, flags=0xC0, data=other)
+        avps = [SessionIdAVP(b"a;1;2"), decoy, rc] if shape == "decoy-before" else [rc, decoy, SessionIdAVP(b"a;1;2")]
+        ans = DiameterAnswer(command_code=316, application_id=16777251, avps=avps)
+        if shape == "decoy-after":
+            # ... and as the peer would see it: decoded from its bytes
+            from bromelia.base import DiameterMessage
+            ans = DiameterMessage.load(ans.dump())[0]
+        return ans
     if shape == "ebit":
         ans = DiameterAnswer(command_code=316, application_id=16777251, avps=[rc])
         ans.header.set_error_bit(True)
@@ -114,10 +128,36 @@ Vecs == SetToSeq({[w |-> Word32(n), fam |-> Family(Word32(n))] : n \\in Small}
 """
 
 
+def _classify_job(w, reps=2):
+    def job():
+        api = _api()
+        ans = _answer(api, list(w.to_bytes(4, "big")), "plain")
+        n = int.from_bytes(ans.result_code_avp.data, "big")
+        return [[bool(f(ans)) for f in api[1]] + [bool(f(n)) for f in api[0]] for _ in range(reps)]
+    return job
+
+
+PURITY_PAIRS = [(2001, 5012), (1001, 3004), (4001, 2002), (5999, 2001)]
+
+
+def purity(rep):
+    """two answers classified at the same time, one preemption at every source line of bromelia/utils.py (first thing in the
+    check: the library's module-level state is untouched)"""
+    from engine import concur, tlc
+    concur.model_check_cache(rep, tlc)
+    pairs = [(f"{a} classified while {b} is being classified", _classify_job(a), _classify_job(b)) for a, b in PURITY_PAIRS[:2 if rep.tier == "quick" else 4]]
+    n, problems = concur.purity_sweep(pairs, ("/bromelia/utils.py", "/bromelia/_internal_utils.py"), kmax=400)
+    rep.case(("purity",), n)
+    rep.notes["concurrent_executions"] = n
+    for desc, k, text in problems:
+        rep.violation(f"two threads inside the predicates ({desc}; the first stopped after {k} source lines): {text}", {"kind": "purity", "k": k, "desc": desc})
+
+
 def run(rep):
+    purity(rep)
     api = _api()
     rep.rule = ("V: all codes 0..65535 and 735 boundary 32-bit words, each through 5 integer and 5 answer-object "
-                "predicates on 3 answer shapes (plain; E bit set; Result-Code among other AVPs with other header flags); T: seeded random 32-bit words validated by TLC. distinct = distinct words")
+                "predicates on 5 answer shapes (plain; E bit set; Result-Code among other AVPs with other header flags; another vendor's AVP with code 268 before / after it, built and decoded); two answers classified concurrently with one preemption at every source line; T: seeded random 32-bit words validated by TLC. distinct = distinct words")
     vecs, res = vectors.gen("Gen_Family", ["Types"], DEFS, "Vecs",
                             theorems=["\\A n \\in Small : Family(Word32(n)) = FamilyOfNat(n)",
                                       "\\A n \\in Small : SmallVal(Word32(n)) = n"],
@@ -171,6 +211,10 @@ def run(rep):
 
 
 def replay(rep, path):
+    if json.load(open(path))["replay"].get("kind") == "purity":
+        purity(rep)
+        rep.sample(json.load(open(path))["replay"])
+        return rep.finish()
     api = _api()
     w = json.load(open(path))["replay"]["word"]
     vecs, res = vectors.gen("Gen_Family_replay", ["Types"], f"Vecs == <<[w |-> {vectors.tlc.tla(w)}, fam |-> Family({vectors.tlc.tla(w)})]>>", "Vecs")
